@@ -83,58 +83,58 @@ CLAIMS = {
     ),
     "C01": dict(
         engine="traversal",
-        level="exploration",
+        level="model_checking",
         text='every start of a test in recorded real traversals is checked by TLC against StartOK of specs/traversal/TraversalObs.tla: each required state is in a pool the worker was told to look in (scope enabled) unless the producer or the creation step failed in this run; schedules randomize durations, PASS/FAIL/ERROR/WARN placement, initial pools and residues of runs interrupted at a random event, on lazy and eager graphs with 2-4 workers',
-        note="environment model of DESIGN appendix C (pools, door, fake test process) is trusted; the property predicates are the TLA+ monitor's, evaluated by TLC on every event of every recorded execution; a corrupted copy of an accepted trace must be rejected in every run (binding self-test); exhaustive exploration of the algorithm model is separate (specs/traversal/Traversal.tla)",
-        technique="randomized schedules of the real code in virtual time, traces validated by TLC against a TLA+ monitor specification",
+        note="environment model of DESIGN appendix C (pools, door, fake test process) is trusted; the property predicates are the TLA+ monitor's, evaluated by TLC on every event of every recorded execution; a corrupted copy of an accepted trace must be rejected in every run (binding self-test). Where the level is model_checking the algorithm model specs/traversal/Traversal.tla (constants extracted from graphs parsed by the current tree) is explored exhaustively on small instances with the property's invariant - all interleavings at await granularity, all PASS/FAIL placements, all shared-pool populations, bounded back-offs, default reuse scope, untimed - and a sample of the recorded executions is validated step by step against the same model (DESIGN 10.3, 10.4)",
+        technique="TLA+ algorithm model explored exhaustively by TLC + randomized schedules of the real code in virtual time validated by TLC against the TLA+ monitor and, fine-grained, against the algorithm model",
         design_ref='6/C01',
     ),
     "C02": dict(
         engine="traversal",
-        level="exploration",
+        level="model_checking",
         text='recorded real traversals under randomized timing/outcomes (incl. never-reported results, retries, restricted workers, dry runs) with a mandatory step watchdog are validated by TLC against TraversalObs: no traversal error, all workers back at the start, nothing running or pending at the end, every selected compatible test executed or found reusable, dry run inert',
-        note="environment model of DESIGN appendix C (pools, door, fake test process) is trusted; the property predicates are the TLA+ monitor's, evaluated by TLC on every event of every recorded execution; a corrupted copy of an accepted trace must be rejected in every run (binding self-test); exhaustive exploration of the algorithm model is separate (specs/traversal/Traversal.tla)",
-        technique="randomized schedules of the real code in virtual time, traces validated by TLC against a TLA+ monitor specification",
+        note="environment model of DESIGN appendix C (pools, door, fake test process) is trusted; the property predicates are the TLA+ monitor's, evaluated by TLC on every event of every recorded execution; a corrupted copy of an accepted trace must be rejected in every run (binding self-test). Where the level is model_checking the algorithm model specs/traversal/Traversal.tla (constants extracted from graphs parsed by the current tree) is explored exhaustively on small instances with the property's invariant - all interleavings at await granularity, all PASS/FAIL placements, all shared-pool populations, bounded back-offs, default reuse scope, untimed - and a sample of the recorded executions is validated step by step against the same model (DESIGN 10.3, 10.4)",
+        technique="TLA+ algorithm model explored exhaustively by TLC + randomized schedules of the real code in virtual time validated by TLC against the TLA+ monitor and, fine-grained, against the algorithm model",
         design_ref='6/C02',
     ),
     "C03": dict(
         engine="traversal",
-        level="exploration",
+        level="model_checking",
         text='recorded real traversals over max_tries/max_concurrent_tries/pool_scope subsets/lxc and remote worker sets/initial pools are validated by TLC against TraversalObs: executions per test and reuse scope within budget, first examination finding all states forbids execution, clone sources never executed',
-        note="environment model of DESIGN appendix C (pools, door, fake test process) is trusted; the property predicates are the TLA+ monitor's, evaluated by TLC on every event of every recorded execution; a corrupted copy of an accepted trace must be rejected in every run (binding self-test); exhaustive exploration of the algorithm model is separate (specs/traversal/Traversal.tla)",
-        technique="randomized schedules of the real code in virtual time, traces validated by TLC against a TLA+ monitor specification",
+        note="environment model of DESIGN appendix C (pools, door, fake test process) is trusted; the property predicates are the TLA+ monitor's, evaluated by TLC on every event of every recorded execution; a corrupted copy of an accepted trace must be rejected in every run (binding self-test). Where the level is model_checking the algorithm model specs/traversal/Traversal.tla (constants extracted from graphs parsed by the current tree) is explored exhaustively on small instances with the property's invariant - all interleavings at await granularity, all PASS/FAIL placements, all shared-pool populations, bounded back-offs, default reuse scope, untimed - and a sample of the recorded executions is validated step by step against the same model (DESIGN 10.3, 10.4)",
+        technique="TLA+ algorithm model explored exhaustively by TLC + randomized schedules of the real code in virtual time validated by TLC against the TLA+ monitor and, fine-grained, against the algorithm model",
         design_ref='6/C03',
     ),
     "C04": dict(
         engine="traversal",
-        level="exploration",
+        level="model_checking",
         text='recorded real traversals in virtual time with durations within the timeout (two timeout regimes, retries) are validated by TLC against TraversalObs: at every start/prestart the number of other workers of the scope executing the same test (creation pre-step + install = one occupation) is below the limit',
-        note="environment model of DESIGN appendix C (pools, door, fake test process) is trusted; the property predicates are the TLA+ monitor's, evaluated by TLC on every event of every recorded execution; a corrupted copy of an accepted trace must be rejected in every run (binding self-test); exhaustive exploration of the algorithm model is separate (specs/traversal/Traversal.tla)",
-        technique="randomized schedules of the real code in virtual time, traces validated by TLC against a TLA+ monitor specification",
+        note="environment model of DESIGN appendix C (pools, door, fake test process) is trusted; the property predicates are the TLA+ monitor's, evaluated by TLC on every event of every recorded execution; a corrupted copy of an accepted trace must be rejected in every run (binding self-test). Where the level is model_checking the algorithm model specs/traversal/Traversal.tla (constants extracted from graphs parsed by the current tree) is explored exhaustively on small instances with the property's invariant - all interleavings at await granularity, all PASS/FAIL placements, all shared-pool populations, bounded back-offs, default reuse scope, untimed - and a sample of the recorded executions is validated step by step against the same model (DESIGN 10.3, 10.4)",
+        technique="TLA+ algorithm model explored exhaustively by TLC + randomized schedules of the real code in virtual time validated by TLC against the TLA+ monitor and, fine-grained, against the algorithm model",
         design_ref='6/C04',
     ),
     "C05": dict(
         engine="traversal",
-        level="exploration",
+        level="model_checking",
         text='recorded real traversals of graphs with removable states (tutorial_gui/tutorial_get and whole chains made removable), lazy expansion, worker sets and pool filters are validated by TLC against TraversalObs: every unset request concerns a removable state with no dependant running or still to be executed; no sync with reuse/block',
-        note="environment model of DESIGN appendix C (pools, door, fake test process) is trusted; the property predicates are the TLA+ monitor's, evaluated by TLC on every event of every recorded execution; a corrupted copy of an accepted trace must be rejected in every run (binding self-test); exhaustive exploration of the algorithm model is separate (specs/traversal/Traversal.tla)",
-        technique="randomized schedules of the real code in virtual time, traces validated by TLC against a TLA+ monitor specification",
+        note="environment model of DESIGN appendix C (pools, door, fake test process) is trusted; the property predicates are the TLA+ monitor's, evaluated by TLC on every event of every recorded execution; a corrupted copy of an accepted trace must be rejected in every run (binding self-test). Where the level is model_checking the algorithm model specs/traversal/Traversal.tla (constants extracted from graphs parsed by the current tree) is explored exhaustively on small instances with the property's invariant - all interleavings at await granularity, all PASS/FAIL placements, all shared-pool populations, bounded back-offs, default reuse scope, untimed - and a sample of the recorded executions is validated step by step against the same model (DESIGN 10.3, 10.4)",
+        technique="TLA+ algorithm model explored exhaustively by TLC + randomized schedules of the real code in virtual time validated by TLC against the TLA+ monitor and, fine-grained, against the algorithm model",
         design_ref='6/C05',
     ),
     "C08": dict(
         engine="traversal",
         level="exploration",
         text='recorded real traversals with mixed worker sets (restricted nets, lxc swarm, two remote clusters) are validated by TLC against TraversalObs: own-worker execution, named sources = shared pool + workers holding a passing result of the producer, with their access parameters',
-        note="environment model of DESIGN appendix C (pools, door, fake test process) is trusted; the property predicates are the TLA+ monitor's, evaluated by TLC on every event of every recorded execution; a corrupted copy of an accepted trace must be rejected in every run (binding self-test); exhaustive exploration of the algorithm model is separate (specs/traversal/Traversal.tla)",
-        technique="randomized schedules of the real code in virtual time, traces validated by TLC against a TLA+ monitor specification",
+        note="environment model of DESIGN appendix C (pools, door, fake test process) is trusted; the property predicates are the TLA+ monitor's, evaluated by TLC on every event of every recorded execution; a corrupted copy of an accepted trace must be rejected in every run (binding self-test). Where the level is model_checking the algorithm model specs/traversal/Traversal.tla (constants extracted from graphs parsed by the current tree) is explored exhaustively on small instances with the property's invariant - all interleavings at await granularity, all PASS/FAIL placements, all shared-pool populations, bounded back-offs, default reuse scope, untimed - and a sample of the recorded executions is validated step by step against the same model (DESIGN 10.3, 10.4)",
+        technique="TLA+ algorithm model explored exhaustively by TLC + randomized schedules of the real code in virtual time validated by TLC against the TLA+ monitor and, fine-grained, against the algorithm model",
         design_ref='6/C08',
     ),
     "C10": dict(
         engine="traversal",
-        level="exploration",
+        level="model_checking",
         text='recorded real traversals over outcome sequences of 7 statuses x max_tries x rerun/stop subsets (valid and invalid) are validated by TLC against TraversalObs: retry rule at every start and at the end, identifier freshness, own results recorded, verdict = every executed test has an acceptable result; invalid settings must raise',
-        note="environment model of DESIGN appendix C (pools, door, fake test process) is trusted; the property predicates are the TLA+ monitor's, evaluated by TLC on every event of every recorded execution; a corrupted copy of an accepted trace must be rejected in every run (binding self-test); exhaustive exploration of the algorithm model is separate (specs/traversal/Traversal.tla)",
-        technique="randomized schedules of the real code in virtual time, traces validated by TLC against a TLA+ monitor specification",
+        note="environment model of DESIGN appendix C (pools, door, fake test process) is trusted; the property predicates are the TLA+ monitor's, evaluated by TLC on every event of every recorded execution; a corrupted copy of an accepted trace must be rejected in every run (binding self-test). Where the level is model_checking the algorithm model specs/traversal/Traversal.tla (constants extracted from graphs parsed by the current tree) is explored exhaustively on small instances with the property's invariant - all interleavings at await granularity, all PASS/FAIL placements, all shared-pool populations, bounded back-offs, default reuse scope, untimed - and a sample of the recorded executions is validated step by step against the same model (DESIGN 10.3, 10.4)",
+        technique="TLA+ algorithm model explored exhaustively by TLC + randomized schedules of the real code in virtual time validated by TLC against the TLA+ monitor and, fine-grained, against the algorithm model",
         design_ref='6/C10',
     ),
     "C14": dict(
